@@ -83,3 +83,8 @@ chk("C05", "E1 program explorer + E4 follow-on histories",
     "For every program root of the bounded space all ten entry points (x.compute, dask.compute alone / with a sibling sharing the subtree, x.persist, dask.persist alone / with sibling, dask.optimize, x.optimize, to_delayed, np.asarray) are executed and compared with NumPy; returned collections must keep name/keys/chunks/dtype; each of 12 follow-on ops applied to each returned collection must equal NumPy.",
     "Trusted: synchronous scheduler; NumPy reference.",
     "DESIGN.md §4 C05")
+chk("C06", "E4 history explorer (long-lived processes) + constructor log",
+    "exhaustive enumeration of the bounded program space inside long-lived interpreter states (all collections kept alive, several program orders), with name->metadata and key->value registries checked on every sighting",
+    "Each of several independent long-lived processes builds every depth<=2 program over a parameter-variant alphabet (siblings differing in one parameter a tokenizer or hand-built name could drop: slices, axes, keepdims, split_every, weights, seeds, sibling SeedSequences, rechunk options, kwargs) in its own order and keeps everything alive; every program is compared with NumPy (random arrays with values from a clean subprocess), every node name must always carry the same shape/chunks/dtype, and every graph key must always carry the same block value.",
+    "Trusted: NumPy / clean-subprocess values adjudicate substitutions; within-process only (cross-process determinism is C07).",
+    "DESIGN.md §4 C06")
